@@ -31,7 +31,7 @@ func selfTestLZHUF() int {
 	if rl.CRC16([]byte("123456789")) != 0x31C3 {
 		core.Infra("ref CRC16 check value")
 	}
-	files, _ := filepath.Glob("/repo/lzhuf/testdata/*.lzh")
+	files, _ := filepath.Glob(core.Repo + "/lzhuf/testdata/*.lzh")
 	if len(files) < 5 {
 		core.Infra("golden lzh files missing (%d)", len(files))
 	}
